@@ -30,6 +30,13 @@ import json, sys, os
 src, dst, prop, clean, patched, chk = sys.argv[1:]
 try: meta = json.load(open(src))
 except Exception: meta = {}
+try:
+    prev = json.load(open(dst))
+    for k in ("history_of_detection",):
+        if k in prev: meta[k] = prev[k]
+    keep = {k: v for k, v in prev.get("confirmed_by_me", {}).items() if k in ("check_detected_by", "also_run")}
+except Exception:
+    keep = {}
 first = [l for l in open(os.environ['TMPD']+'/check.out') if l.startswith('violation:')]
 meta.update({
  "property": prop,
@@ -40,5 +47,6 @@ meta.update({
    "check_exit": int(chk), "check_detected": int(chk) == 1,
    "first_violation_reported": first[0].strip()[:400] if first else "",
  }})
+meta["confirmed_by_me"].update(keep)
 json.dump(meta, open(dst, 'w'), indent=1)
 PY
